@@ -26,6 +26,8 @@ ENUM = {
 }
 ALLT = list(ENUM)
 WIRE = [t for t in ALLT if t != "BOOL"]
+SAME_WIDTH = [("INT32", "FLOAT32"), ("UINT32", "FLOAT32"), ("INT32", "UINT32"), ("INT64", "FLOAT64"), ("UINT64", "FLOAT64"), ("INT64", "UINT64"),
+              ("INT16", "UINT16"), ("BYTE", "UINT8")]
 OF_WIRE = {v[0]: k for k, v in ENUM.items()}
 DEVS = {"C27": ["EmptyBucketDropped", "AllEmptyNoColumns", "AppendIgnoresTypes"],
         "C28": ["OneByteNameLen", "OneByteColCount", "Int16PathLen"],
@@ -574,14 +576,18 @@ def run_c28(res, tier, rng, binary):
     if quick:
         t2 = sorted(rng.sample(ALLT, 2))
         big = [rng.choice(ALLT)]
+        # the two-bucket groups use two element types of EQUAL width: buckets whose columns agree in name and width and differ
+        # only in type must still be told apart in the encoded schema
+        twin = list(rng.choice(SAME_WIDTH))
         runs = [("Codec_c28_a.cfg", dict(Types=sorted(set(t2) | set(big)), BigTypes=big, PathLens=PATHS, NameLens=NAMES_TG, ColCounts=COUNTS, MaxCmds=1)),
-                ("Codec_c28_b.cfg", dict(Types=big, BigTypes=big, PathLens=[rng.choice([22, 255, 300, 526])], NameLens=[1, 31, 32, 300], ColCounts=[2, 256],
+                ("Codec_c28_b.cfg", dict(Types=twin, BigTypes=twin[:1], PathLens=[rng.choice([22, 255, 300, 526])], NameLens=[1, 32, 300], ColCounts=[2, 256],
                                          MaxCmds=3, TwoBuckets=True, BigPayload=0))]
     else:
         big = sorted(rng.sample(ALLT, 3))
         one = rng.choice(ALLT)
+        twin = list(rng.choice(SAME_WIDTH))
         runs = [("Codec_c28_a.cfg", dict(Types=ALLT, BigTypes=big, PathLens=PATHS, NameLens=NAMES_TG, ColCounts=COUNTS, MaxCmds=1)),
-                ("Codec_c28_b.cfg", dict(Types=sorted(set(rng.sample(ALLT, 3)) | {big[0]}), BigTypes=big[:1], PathLens=[22, 255, 526], NameLens=NAMES_TG,
+                ("Codec_c28_b.cfg", dict(Types=sorted(set(rng.sample(ALLT, 2)) | set(twin) | {big[0]}), BigTypes=big[:1], PathLens=[22, 255, 526], NameLens=NAMES_TG,
                                          ColCounts=COUNTS, MaxCmds=3, TwoBuckets=True, BigPayload=0)),
                 ("Codec_c28_c.cfg", dict(Types=[one], BigTypes=[one], PathLens=[22, 300], NameLens=[31, 32, 300], ColCounts=[1, 2], MaxCmds=3,
                                          TwoBuckets=True, BigPayload=40000))]
